@@ -240,8 +240,98 @@ let run_sim () =
        pf "end %s iter %d draws %d\n" (if !s.k_aborted then "aborted" else if !s.k_final then "done" else "running")
          (int_of_nat !s.k_iter) (int_of_nat !s.k_h.s_cursor))
 
+
+(* ---- plugins: mission, dispatcher, random trip ------------------------------------------------- *)
+let rec pos_of_int n = if n <= 1 then XH else if n land 1 = 0 then XO (pos_of_int (n lsr 1)) else XI (pos_of_int (n lsr 1))
+let z_of_int n = if n = 0 then Z0 else if n > 0 then Zpos (pos_of_int n) else Zneg (pos_of_int (- n))
+
+let run_mission () =
+  let speed = nflt () in
+  let mode = (match next () with "no" -> LoopNo | "restart" -> LoopRestart | "reverse" -> LoopReverse | t -> failwith ("mode: " ^ t)) in
+  let tol = nflt () in
+  let n = nint () in
+  let ops = ntimes n (fun () ->
+    match next () with
+    | "start" -> let k = nint () in MStart (ntimes k nvec)
+    | "stop" -> MStop
+    | "setwp" -> MSetWaypoint (z_of_int (nint ()))
+    | "setrev" -> MSetReversed (nint () <> 0)
+    | "telem" -> MTelemetry (nvec ())
+    | t -> failwith ("mission op: " ^ t)) in
+  let cfg = { mc_speed = speed; mc_loop = mode; mc_tol = tol } in
+  let (_, out) = m_run fl cfg m_init ops in
+  List.iter (fun ((cmds, res), ((cur, rev), idle)) ->
+    pf "%s cur %s rev %d idle %d" (match res with MOk -> "ok" | MErr -> "err" | MIndexError -> "indexerror")
+      (match cur with None -> "none" | Some i -> string_of_int (int_of_nat i)) (if rev then 1 else 0) (if idle then 1 else 0);
+    List.iter (fun c -> match c with MGoto p -> pf " | goto %s" (vec p) | MSetSpeed v -> pf " | speed %s" (hx v)) cmds;
+    pf "\n") out
+
+let kind_of_string = function
+  | "init" -> KInit | "timer" -> KTimer | "telem" -> KTelem | "packet" -> KPacket | "finish" -> KFinish
+  | t -> failwith ("kind: " ^ t)
+let string_of_kind = function
+  | KInit -> "init" | KTimer -> "timer" | KTelem -> "telem" | KPacket -> "packet" | KFinish -> "finish"
+
+let run_disp () =
+  let ninst = nint () in
+  let nh = nint () in
+  expect "BEH";
+  let table = Array.of_list (ntimes nh (fun () ->
+    let ne = nint () in
+    Array.of_list (ntimes ne (fun () ->
+      let res = (match next () with "continue" -> RContinue | "interrupt" -> RInterrupt | "none" -> RNone | t -> failwith ("res: " ^ t)) in
+      let no = nint () in
+      let ops = ntimes no (fun () ->
+        match next () with
+        | "reg" -> let i = nnat () in let k = kind_of_string (next ()) in let h = nnat () in ReReg (i, k, h)
+        | "unreg" -> let i = nnat () in let k = kind_of_string (next ()) in let h = nnat () in ReUnreg (i, k, h)
+        | t -> failwith ("reop: " ^ t)) in
+      (res, ops))))) in
+  let beh h n =
+    let h = int_of_nat h and n = int_of_nat n in
+    if h >= Array.length table || Array.length table.(h) = 0 then (RContinue, [])
+    else table.(h).(min n (Array.length table.(h) - 1)) in
+  expect "OPS";
+  let n = nint () in
+  let ops = ntimes n (fun () ->
+    match next () with
+    | "create" -> DCreate (nnat ())
+    | "reg" -> let i = nnat () in let k = kind_of_string (next ()) in let h = nnat () in DRegister (i, k, h)
+    | "unreg" -> let i = nnat () in let k = kind_of_string (next ()) in let h = nnat () in DUnregister (i, k, h)
+    | "disp" -> let i = nnat () in let k = kind_of_string (next ()) in DDispatch (i, k)
+    | t -> failwith ("disp op: " ^ t)) in
+  let (_, out) = d_run beh (d_init (nat_of_int ninst) (nat_of_int nh)) ops in
+  List.iter (fun items ->
+    pf "op";
+    List.iter (fun it -> match it with
+      | DCall (i, k, h) -> pf " | call %d %s %d" (int_of_nat i) (string_of_kind k) (int_of_nat h)
+      | DProto (i, k) -> pf " | proto %d %s" (int_of_nat i) (string_of_kind k)
+      | DValueError -> pf " | valueerror"
+      | DNoWrapper -> pf " | nowrapper") items;
+    pf "\n") out
+
+let run_trip () =
+  let xa = nflt () in let xb = nflt () in let ya = nflt () in let yb = nflt () in let za = nflt () in let zb = nflt () in
+  let tol = nflt () in
+  let ns = nint () in
+  let stream = ntimes ns nflt in
+  let n = nint () in
+  let ops = ntimes n (fun () ->
+    match next () with
+    | "init" -> TInitiate | "finish" -> TFinish | "travel" -> TTravel
+    | "telem" -> TTelemetry (nvec ())
+    | t -> failwith ("trip op: " ^ t)) in
+  let cfg = { tc_x = (xa, xb); tc_y = (ya, yb); tc_z = (za, zb); tc_tol = tol } in
+  let (_, out) = t_run fl cfg stream t_init ops in
+  List.iter (fun (cmds, ((ongoing, target), cursor)) ->
+    pf "ongoing %d target %s draws %d" (if ongoing then 1 else 0)
+      (match target with None -> "none" | Some p -> vec p) (int_of_nat cursor);
+    List.iter (fun p -> pf " | goto %s" (vec p)) cmds;
+    pf "\n") out
+
 (* ---- main ----------------------------------------------------------------------------------- *)
-let dispatch : (string * (unit -> unit)) list ref = ref [ ("el", run_el); ("sim", run_sim) ]
+let dispatch : (string * (unit -> unit)) list ref =
+  ref [ ("el", run_el); ("sim", run_sim); ("mission", run_mission); ("disp", run_disp); ("trip", run_trip) ]
 
 let () =
   load stdin;
